@@ -26,6 +26,8 @@ pub struct LedgerStats {
     pub frames_at_stream_limit: u64,
     pub frames_at_conn_limit: u64,
     pub credit_probes: u64,
+    pub reset_final_sizes_checked: u64,
+    pub reset_final_sizes_beyond_sent: u64,
     pub credit_probes_blocked: u64,
     pub max_data_delivered: u64,
     pub max_stream_data_delivered: u64,
@@ -174,6 +176,31 @@ impl Ledger {
             }
             Event::Delivered { to, frame, result } => {
                 let ok = result.is_ok();
+                // sender side: the final size a RESET_STREAM declares is flow-controlled like data (RFC 9000 §4.5):
+                // it must not exceed the stream limit the peer has in force, and what it claims beyond the bytes
+                // already sent is new data on the connection-level account
+                if let DFrame::Ctl(Ctl::Sc(StreamCtlFrame::ResetStream(r))) = frame {
+                    let sender = to.peer();
+                    let sid = r.stream_id();
+                    let raw = sid_raw(sid);
+                    if let Some((init, name)) = initial_stream_limit(&self.cfg, sender, sid) {
+                        self.stats.reset_final_sizes_checked += 1;
+                        let lim = *self.stream_limit.entry((sender.ix(), raw)).or_insert(init);
+                        if r.final_size() > lim {
+                            self.find(
+                                "C11",
+                                format!("send.stream-limit-exceeded:reset-final-size:{name}"),
+                                format!("{sender:?} sent RESET_STREAM for {sid} with final size {}; the peer's limit in force for this stream is {lim} (initial_max_stream_data_{name} = {init})", r.final_size()),
+                            );
+                        }
+                        let h = self.hwm.entry((sender.ix(), raw)).or_insert(0);
+                        if r.final_size() > *h {
+                            self.stats.reset_final_sizes_beyond_sent += 1;
+                            self.sent_new[sender.ix()] += r.final_size() - *h;
+                            *h = r.final_size();
+                        }
+                    }
+                }
                 let refd = match frame {
                     DFrame::Stream(f) => Some(f.stream_id()),
                     DFrame::Ctl(Ctl::Sc(StreamCtlFrame::ResetStream(f))) => Some(f.stream_id()),
@@ -667,6 +694,8 @@ pub fn add_stats(rep: &mut vcore::Report, s: &Stats, l: &LedgerStats) {
         ("ledger_frames_exactly_at_stream_limit", l.frames_at_stream_limit),
         ("ledger_frames_exactly_at_conn_limit", l.frames_at_conn_limit),
         ("ledger_credit_probes", l.credit_probes),
+        ("ledger_reset_final_sizes_checked", l.reset_final_sizes_checked),
+        ("ledger_reset_final_sizes_beyond_bytes_sent", l.reset_final_sizes_beyond_sent),
         ("ledger_credit_probes_while_blocked", l.credit_probes_blocked),
         ("ledger_max_data_delivered", l.max_data_delivered),
         ("ledger_max_stream_data_delivered", l.max_stream_data_delivered),
